@@ -1,6 +1,6 @@
 # Human-written metadata per check for MANIFEST.json.
 ENGINES = [
-    {"name": "meshx", "path": "/verif/kit (world.go, node.go, conn.go)", "serves_properties": ["C01", "C06"],
+    {"name": "meshx", "path": "/verif/kit (world.go, node.go, conn.go)", "serves_properties": ["C01", "C06", "C07"],
      "kind_free_text": "event-level explorer over a world of real routers (real state/peering/switch/router modules per node) wired by virtual links or adversary-owned connections; one event = one synchronous call into the real handlers, virtual time via testing/synctest"},
     {"name": "seqx", "path": "/verif/kit (bfs.go) + /verif/checks/*", "serves_properties": ["C01", "C02", "C03", "C11", "C12", "C17", "C19"],
      "kind_free_text": "sequential bounded-exhaustive / explicit-state explorer over the real objects (fresh object + replay per path, canonical state hash)"},
@@ -51,6 +51,13 @@ META = {
         "design_ref": "DESIGN.md §2 C06",
         "text": "Every single-service configuration (6 schemes x explicit/default port x 5 access rules x 3 friend sets x isolation on/off; thorough: all ordered pairs of services incl. colliding protocol-port keys, which the parser must reject) goes through the real Store parser into a real router with four real, keyed neighbours (two friends, a listed address, a stranger). Inbound: sender x protocol {0,1,6,17,58,255} x port {0,80,443,8080,81} x one deviation of (inner source, inner destination, frame sealed by another router / garbage), sealed with the sender's real session and injected over its link; outbound: own/foreign source x friend/stranger/listed/multicast/non-Mycoria/unrouted destination x protocol, through the real tun handler in virtual time; two-step sequences over mirrored 5-tuples. What reaches the tun device (byte-exact) and the mesh is compared with a 30-line reference derived from the configuration's intent, including the by-design flow-verdict memo.",
         "note": "The flow-verdict cache is treated as by design and mirrored in the reference; panics of the handlers are counted here but reported under C13; the local API address as a destination is excluded (no netstack in the harness).",
+    },
+    "C07": {
+        "engine": "meshx",
+        "technique": "exhaustive single-bit / re-address / re-seal / replay fault enumeration on real pings delivered to a real router, snapshot comparison",
+        "design_ref": "DESIGN.md §2 C07",
+        "text": "In a fresh world of six real routers (R with peers X, Y, Z, a populated routing table covering every 3-router path shape, connection verdicts and keyed sessions) each of 14 ping kinds (hello req/resp, pong req/resp, error codes 0-4 and unknown, disconnect going-down/list, announce with 0 and 1 hop) is produced by X's real sender code and delivered to R after: every single-bit flip of every authenticated header byte, the length fields and the signature/MAC plus one bit per body byte (thorough: all bits); rewriting source or destination; re-sealing the same content by Y or Z claiming X's address; four first-contact variants (right key / wrong key / key of another address / no key) x four ping types; replay of the exact frame after {nothing, a newer ping from X, a ping from Y, +31 s}. A snapshot (routing table via VerifEntries, session set-up flags and key fingerprints, peer MTU, stored public info and offline flags, connection verdicts) must be unchanged for everything that does not verify; the valid ping's effect is bounded per kind (hello: only session(X); disconnect: only routes containing X, and all of them).",
+        "note": "Bare identity records (address+key, no keys/MTU/info) are normalised away: the statement's state list does not contain them and C01 governs them. Disconnect pings are addressed to the router itself because, as emitted by the real sender (unicast type to the multicast address), they are never dispatched to the disconnect handler.",
     },
     "C11": {
         "engine": "seqx",
